@@ -96,6 +96,8 @@ class TList(list):
 
 def _krange(*a: Any) -> Any:
     kinds = {kind_of(x) for x in a} - {None}
+    if len(a) == 3 and isinstance(a[2], int) and a[2] == 0:
+        raise Raised("ValueError(range() arg 3 must not be zero)")
     r = range(*[int(x) for x in a])
     if len(kinds) == 1:
         k = kinds.pop()
